@@ -276,7 +276,7 @@ def run(chk):
             raise AnchorMissing(name)
         check_stream(chk, prog, sim, name)
         check_interleaved(chk, prog, sim, name)
-    if chk.tier == "thorough":
+    if True:
         # dimension checking enabled in a release profile (dim_check_release): the unit gates must still be there
         import program as _p
         p7 = _p.load_config("K7")
